@@ -435,6 +435,13 @@ impl World {
         let n = segs.len();
         let b = before.unwrap();
         for seg in segs {
+            // a reset emitted after forged segments were delivered is (or may be) the mandated answer to one of them,
+            // e.g. to an unacceptable ACK in SYN-SENT; it legitimately destroys the peer's half of the connection, so
+            // the stream and synchronisation oracles between the two real endpoints end here
+            if seg.header.ctl.rst() && self.stats.injected > 0 {
+                self.sides[0].read_tainted = true;
+                self.sides[1].read_tainted = true;
+            }
             // send-window oracle: new data never beyond SND.UNA + SND.WND of the snapshot before the call
             if !seg.text.is_empty() {
                 let rel_end = seg.header.seq.wrapping_add(seg.text.len() as u32).wrapping_sub(b.snd_una);
@@ -722,6 +729,8 @@ pub struct GenCfg {
     pub byte_budget: usize,
     /// do not issue close() while text is queued but not segmentised (open finding)
     pub exclude_close_with_unsent: bool,
+    /// decode exactly as before the generator was extended (replay of older files)
+    pub legacy_layout: bool,
 }
 
 pub fn gen_iss(e: &mut Entropy) -> u32 {
@@ -796,7 +805,12 @@ pub fn gen_op(e: &mut Entropy, w: &World, cfg: &GenCfg, bytes_left: &mut usize, 
         5 => {
             let dir = e.choose(2);
             let dir = if w.wire[dir].is_empty() { 1 - dir } else { dir };
-            Op::Dup { dir, i: e.choose(w.wire[dir].len().max(1)) }
+            // a reset in flight is the most interesting thing to duplicate: its copy arrives in a later life of the connection
+            let i = match w.wire[dir].iter().position(|s| s.header.ctl.rst()) {
+                Some(r) if !cfg.legacy_layout && e.chance(2, 3) => r,
+                _ => e.choose(w.wire[dir].len().max(1)),
+            };
+            Op::Dup { dir, i }
         }
         6 => {
             let ms = *e.pick(&[1u64, 5, 50, 99, 100, 101, 150, 500, 1999, 2000, 2001, 5000]);
@@ -814,7 +828,14 @@ pub fn gen_op(e: &mut Entropy, w: &World, cfg: &GenCfg, bytes_left: &mut usize, 
             }
             Op::Close { side }
         }
-        8 => Op::OldSyn { back: 1 + e.choose(100_000) as u32 },
+        8 => Op::OldSyn {
+            // mostly far back, but also immediately before the real ISS (numbers that land on the window's left edge later)
+            back: match if cfg.legacy_layout { 2 } else { e.weighted(&[2, 1, 3]) } {
+                0 => 1,
+                1 => 2 + e.choose(3) as u32,
+                _ => 1 + e.choose(100_000) as u32,
+            },
+        },
         _ => {
             let to = e.choose(2);
             gen_inject(e, w, to)
